@@ -214,6 +214,12 @@ func c03BooleanScope(name string, sa, ca *pathAlpha, twoPaths bool, level int) *
 							if !e.ExecutePolyTreeD(ct, fr, t, &op) {
 								c.Fail("execute-false", "ClipperD.ExecutePolyTreeD", "ClipperD.ExecutePolyTreeD(ct=%d, fr=%d) returned false; %s", ct, fr, args())
 							}
+							e2 := clipper.NewClipperD(-1)
+							e2.AddPathsWithScaleFunc(SD, clipper.Subject, false, clipper.ScalePathsDToPaths64)
+							var c3, o3 clipper.PathsD
+							if !e2.ExecuteWithScaleFunc(ct, fr, &c3, &o3, clipper.ScalePath64ToPathD) {
+								c.Fail("execute-false", "ClipperD.ExecuteWithScaleFunc", "ClipperD.ExecuteWithScaleFunc(ct=%d, fr=%d) returned false; %s", ct, fr, args())
+							}
 							var cl2 clipper.PathsD
 							if !e.Execute(ct, fr, &cl2) {
 								c.Fail("execute-false", "ClipperD.Execute", "ClipperD.Execute(ct=%d, fr=%d) returned false; %s", ct, fr, args())
